@@ -127,6 +127,17 @@ def run(rec):
                 ok, Hr = rec.guarded('to_TermList:exception', tlr, inp)
                 if ok:
                     rec.check(np.allclose(Hr, Hd, atol=1e-7 * scale), 'to_TermList->from_term_list:dense', f'max dev {np.abs(Hr - Hd).max()}', inp)
+                # the same for derived MPOs: a sum (whose IdR bookkeeping differs from a built MPO) and a scaled-and-shifted one
+                for tag, Hx, Hxd in (('sum', H + H2, Hd + H2d), ('sum-reversed', H2 + H, Hd + H2d)):
+                    def tlr2(Hx=Hx):
+                        tl = Hx.to_TermList(op_basis=['Id', 'Sz', 'Sp', 'Sm'])
+                        if len(tl.terms) == 0:
+                            return np.zeros_like(Hd)
+                        return mpo_dense(MPOGraph.from_term_list(tl, sites, 'finite').build_MPO(), sites)
+                    ok, Hr = rec.guarded(f'to_TermList({tag}):exception', tlr2, inp)
+                    if ok:
+                        rec.check(np.allclose(Hr, Hxd, atol=1e-7 * scale), f'to_TermList({tag})->from_term_list:dense',
+                                  f'max dev {np.abs(Hr - Hxd).max()}', inp)
             # plus identity
             al, be = float(rng.standard_normal()), float(rng.standard_normal())
             lo = int(rng.integers(0, L))
